@@ -104,6 +104,37 @@ void run_forms(const Case& c, Result& r)
     compare(form_objects(X, ps, true), "objects-embedRange");
     seed(c);
     compare(form_objects(X, ps, false), "objects-embedUsing");
+    // a sequence of labels that is not 0..N-1 (a permutation): hand-written callbacks vs the library's own Eigen callbacks vs
+    // precomputed matrices over the SAME sequence must agree (positions and the values the iterators point at differ here)
+    {
+        std::vector<int> seq = iota_indices((int)X.cols());
+        Rng g((uint64_t)c.i("dseed", 1) * 131 + 5);
+        g.shuffle(seq);
+        cnt.reset();
+        seed(c);
+        Outcome rs = form_counting_sequence(X, ps, cnt, seq);
+        if (rs.what != "ok")
+            r.violation(m + ":permuted-sequence:throws", "hand-written callbacks over a permuted index sequence threw " + rs.what + ": " + rs.message);
+        else
+        {
+            auto compare_seq = [&](const Outcome& o, const std::string& form) {
+                r.addnum("forms_compared", 1);
+                if (o.what != "ok")
+                {
+                    r.violation(m + ":" + form + ":throws", form + " threw " + o.what + ": " + o.message);
+                    return;
+                }
+                double dev = emb_dev(rs.out.embedding, o.out.embedding);
+                r.maxnum("form_dev", dev);
+                if (!(dev <= tol))
+                    r.violation(m + ":" + form + ":differs", sf("embedding differs from hand-written callbacks over the same permuted sequence by %.3g", dev));
+            };
+            seed(c);
+            compare_seq(form_eigen_sequence(X, ps, seq), "eigen-callbacks-permuted-sequence");
+            seed(c);
+            compare_seq(form_precomputed_sequence(X, ps, seq), "precomputed-permuted-sequence");
+        }
+    }
     // exactly the declared callbacks (dummies elsewhere) must suffice, in both attachment orders
     if (need != 7)
     {
